@@ -174,34 +174,58 @@ Inductive exn := IndexError | ValueError | TypeError.
 Inductive res (A : Type) := Done (a : A) | Raised (e : exn).
 Arguments Done {A}. Arguments Raised {A}.
 
-(* _overlay_applier(base, index, values): overlaid = deepcopy(base); for key, vi in index.items():
-     int  -> overlaid[key] = values[vi]           (IndexError if out of range)
-     dict -> overlaid[key] = applier(base.get(key) if that is a dict else {}, vi, values) *)
-Fixpoint applier (base : list (vtree * vtree)) (idx : list (string * index)) (values : list vtree)
-  {struct idx} : res (list (vtree * vtree)) :=
-  match idx with
-  | [] => Done base
-  | (k, i) :: r =>
-      let sub :=
-        match i with
-        | IAt n => match nth_error values n with Some v => Done v | None => Raised IndexError end
-        | ISub kvs =>
-            let b := match vlookup k base with Some (VMap m) => m | _ => [] end in
-            match applier_sub b kvs values with Done m => Done (VMap m) | Raised e => Raised e end
-        end in
-      match sub with
+(* _overlay_applier(base, index, values):
+     overlaid = deepcopy(base)
+     for key, vi in index.items():
+       int  -> overlaid[key] = values[vi]                      (IndexError if out of range)
+       dict -> overlaid[key] = applier(base.get(key) if that is a dict else MapType(), vi, values)
+     return overlaid
+   [apply_idx i old values] is the value written under a key whose index entry is [i] and
+   whose value in the base is [old].  (index keys are distinct, so base.get(key) and
+   overlaid.get(key) agree when key is processed.) *)
+Fixpoint apply_idx (i : index) (old : option vtree) (values : list vtree) {struct i} : res vtree :=
+  match i with
+  | IAt n => match nth_error values n with Some v => Done v | None => Raised IndexError end
+  | ISub kvs =>
+      let base := match old with Some (VMap m) => m | _ => [] end in
+      match
+        (fix go (kvs : list (string * index)) (acc : list (vtree * vtree))
+           : res (list (vtree * vtree)) :=
+           match kvs with
+           | [] => Done acc
+           | (k, i') :: r =>
+               match apply_idx i' (vlookup k base) values with
+               | Raised e => Raised e
+               | Done v => go r (vset k v acc)
+               end
+           end) kvs base
+      with
+      | Done m => Done (VMap m)
       | Raised e => Raised e
-      | Done v =>
-          (* NB: sub-maps are computed from the ORIGINAL base (base.get), written into the copy *)
-          match applier base r values with
-          | Raised e => Raised e
-          | Done rest => Done (vset_after k v base rest)
-          end
       end
-  end
-with applier_sub (base : list (vtree * vtree)) (idx : list (string * index)) (values : list vtree)
-  {struct idx} : res (list (vtree * vtree)) :=
+  end.
+
+Definition msg_bad_overlay (loc : string) : string := "Bad overlay structure for `" ++ loc ++ "`".
+
+(* ---------- evaluate_overlay ----------
+   NB the applier runs outside the try block: an IndexError would escape. *)
+Definition evaluate_overlay (idx : index) (r : raw) (base : list (vtree * vtree)) (loc : string)
+  : res (uoutcome vtree) :=
   match idx with
-  | [] => Done base
-  | _ => Done base
+  | IAt _ => Done (UOut (PermFail (Some (msg_bad_overlay loc)) (Some loc)))
+  | ISub _ =>
+      match r with
+      | RRaise => Done (UOut (fail_eval loc))
+      | RRaiseOther => Done (UOut (fail_unknown loc))
+      | RVal v =>
+          if scan v then Done (UOut (fail_eval loc))
+          else match v with
+               | VList values =>
+                   match apply_idx idx (Some (VMap base)) values with
+                   | Done m => Done (UVal m)
+                   | Raised e => Raised e
+                   end
+               | _ => Done (UOut (PermFail (Some (msg_bad_overlay loc)) (Some loc)))
+               end
+      end
   end.
